@@ -96,6 +96,9 @@ def cond_of(e: ast.AST, expand: Optional[Callable[[ast.AST], ast.AST]] = None) -
         return Cond("and" if isinstance(e.op, ast.And) else "or", [cond_of(v, expand) for v in e.values])
     if isinstance(e, ast.UnaryOp) and isinstance(e.op, ast.Not):
         return Cond("not", [cond_of(e.operand, expand)])
+    if isinstance(e, ast.IfExp):
+        c = cond_of(e.test, expand)
+        return Cond("or", [Cond("and", [c, cond_of(e.body, expand)]), Cond("and", [Cond("not", [c]), cond_of(e.orelse, expand)])])
     if isinstance(e, ast.Compare) and len(e.ops) > 1:
         parts = []
         left = e.left
@@ -239,8 +242,10 @@ def enumerate_paths(fn, fn_lookup: Optional[Callable[[ast.Call], Optional[ast.AS
                 nc = conds + [(cond_of(expand(n.stmt.test), expand), False)]
             elif n.kind == "assert":
                 nc = conds + [(cond_of(expand(n.stmt.test), expand), True)]
-            elif n.kind == "loop" and lab in ("iter", "exhausted"):
-                nc = conds + [(Cond("atom", atom=f"nonempty({ast.unparse(n.stmt.iter)})", pol=True), lab == "iter")]
+            elif n.kind == "loop" and lab in ("iter", "exhausted") and not second_visit:
+                it = expand(n.stmt.iter)
+                nm = f"bool({ast.unparse(it)})" if isinstance(it, (ast.Name, ast.Attribute)) else f"nonempty({ast.unparse(it)})"
+                nc = conds + [(Cond("atom", atom=nm, pol=True), lab == "iter")]
             # statements in a try body: the normal successor means "did not raise"
             if any(l2 == "may-raise" for _, l2 in succs) and lab != "may-raise":
                 atom = Cond("atom", atom=f"raises({ast.unparse(n.stmt)[:50]})" if n.stmt is not None else "raises(?)", pol=True)
